@@ -18,6 +18,7 @@ import RubatoProofs.Async.FixedIn
 import RubatoProofs.Async.FixedOut
 import RubatoProofs.Async.Stream
 import RubatoModel.FftUnitModel
+import RubatoProofs.Lemmas.StorageTie
 
 set_option linter.unusedSectionVars false
 set_option linter.unusedVariables false
@@ -184,5 +185,95 @@ theorem scalar_kernel_is_local (t : Array (Array ℚ)) (len nbr : ℕ)
     (h : ∀ sub : ℕ, (t.getD sub #[]).size ≤ len) :
     Local ⟨len, nbr, scalarDot t⟩ :=
   scalarDot_local t len nbr h
+
+end Rubato.C05
+
+namespace Rubato.C05
+open Rubato Rubato.Gen
+
+/-- tie G14: what a call keeps of the previous calls and where it puts the new frames is the source text: every
+asynchronous `process_into_buffer` first moves TWO filter lengths of history from the end of what the previous call loaded
+(`chunk_size` on FastFixedIn, `current_buffer_fill` elsewhere) to the front of every channel's buffer, then copies exactly
+`input_frames_next()` frames of each active channel behind them — the `shiftFrom`, `2L`, `minIn` of the model's `refill`.
+Everything the chunking-independence theorems assume about the carry between calls. -/
+theorem history_carry_is_the_source_text {ρ σ : Type} [RNum ρ] [SNum ρ σ] (s : AState ρ σ) (fill chunk needed L : Nat) :
+    (Refill.fastIn_carry_to (ρ := ρ) chunk = Refill.fastIn_carry_from (ρ := ρ) chunk + 2 * Fast.polyLen ∧
+     Refill.fastOut_carry_to (ρ := ρ) fill = Refill.fastOut_carry_from (ρ := ρ) fill + 2 * Fast.polyLen ∧
+     Refill.sincIn_carry_to (ρ := ρ) fill L = Refill.sincIn_carry_from (ρ := ρ) fill + 2 * L ∧
+     Refill.sincOut_carry_to (ρ := ρ) fill L = Refill.sincOut_carry_from (ρ := ρ) fill + 2 * L) ∧
+    (Refill.fastIn_carry_dest (ρ := ρ) = 0 ∧ Refill.fastOut_carry_dest (ρ := ρ) = 0 ∧
+     Refill.sincIn_carry_dest (ρ := ρ) = 0 ∧ Refill.sincOut_carry_dest (ρ := ρ) = 0) ∧
+    (Refill.fastIn_load_from (ρ := ρ) = 2 * Fast.polyLen ∧ Refill.fastOut_load_from (ρ := ρ) = 2 * Fast.polyLen ∧
+     Refill.sincIn_load_from (ρ := ρ) L = 2 * L ∧ Refill.sincOut_load_from (ρ := ρ) L = 2 * L) ∧
+    (Refill.fastIn_load_to (ρ := ρ) chunk = Refill.fastIn_load_from (ρ := ρ) + Refill.fastIn_load_len (ρ := ρ) chunk ∧
+     Refill.fastOut_load_to (ρ := ρ) needed = Refill.fastOut_load_from (ρ := ρ) + Refill.fastOut_load_len (ρ := ρ) needed ∧
+     Refill.sincIn_load_to (ρ := ρ) L chunk = Refill.sincIn_load_from (ρ := ρ) L + Refill.sincIn_load_len (ρ := ρ) chunk ∧
+     Refill.sincOut_load_to (ρ := ρ) L needed = Refill.sincOut_load_from (ρ := ρ) L + Refill.sincOut_load_len (ρ := ρ) needed) ∧
+    (s.shiftFrom = (match s.kind with
+      | .fastIn => Refill.fastIn_carry_from (ρ := ρ) s.chunk
+      | .fastOut => Refill.fastOut_carry_from (ρ := ρ) s.fill
+      | .sincIn => Refill.sincIn_carry_from (ρ := ρ) s.fill
+      | .sincOut => Refill.sincOut_carry_from (ρ := ρ) s.fill) ∧
+     s.minIn = (match s.kind with
+      | .fastIn => Refill.fastIn_load_len (ρ := ρ) s.chunk
+      | .fastOut => Refill.fastOut_load_len (ρ := ρ) s.needed
+      | .sincIn => Refill.sincIn_load_len (ρ := ρ) s.chunk
+      | .sincOut => Refill.sincOut_load_len (ρ := ρ) s.needed)) :=
+  ⟨⟨rfl, rfl, rfl, rfl⟩, ⟨rfl, rfl, rfl, rfl⟩, ⟨rfl, rfl, rfl, rfl⟩, ⟨rfl, rfl, rfl, rfl⟩,
+   StorageTie.model_refill_arguments s⟩
+
+/-- the buffer-maintenance formulas read the fields one expects -/
+theorem refill_formulas_read_the_expected_fields_C05 :
+    Refill.refillParams.map (fun p => p.1) =
+      ["fastIn_carry_from", "fastIn_carry_to", "fastIn_carry_dest", "fastIn_load_from", "fastIn_load_to", "fastIn_load_len",
+       "fastOut_carry_from", "fastOut_carry_to", "fastOut_carry_dest", "fastOut_load_from", "fastOut_load_to",
+       "fastOut_load_len", "sincIn_carry_from", "sincIn_carry_to", "sincIn_carry_dest", "sincIn_load_from",
+       "sincIn_load_to", "sincIn_load_len", "sincOut_carry_from", "sincOut_carry_to", "sincOut_carry_dest",
+       "sincOut_load_from", "sincOut_load_to", "sincOut_load_len"] ∧
+    Refill.refillParams.map (fun p => p.2) =
+      [["chunk_size"], ["chunk_size"], [], [], ["chunk_size"], ["chunk_size"],
+       ["current_buffer_fill"], ["current_buffer_fill"], [], [], ["needed_input_size"], ["needed_input_size"],
+       ["current_buffer_fill"], ["current_buffer_fill", "sinc_len"], [], ["sinc_len"], ["sinc_len", "chunk_size"], ["chunk_size"],
+       ["current_buffer_fill"], ["current_buffer_fill", "sinc_len"], [], ["sinc_len"], ["sinc_len", "needed_input_size"],
+       ["needed_input_size"]] := by
+  decide
+
+end Rubato.C05
+
+namespace Rubato.C05
+open Rubato Rubato.Gen
+
+/-- tie G15: how the three synchronous types move frames between the caller's buffers, their staging buffers and the
+per-block unit is the source text (slice bounds, block lengths, where new frames are stored, which frames are carried over
+and where to, and the two counts each call reports) — the bookkeeping the reference-stream theorems above are about. -/
+theorem fft_data_movement_is_the_source_text {ρ : Type} [RNum ρ]
+    (saved ci co fi fo nextSaved nReady used neededLen extra needed processed saved' : Nat) :
+    (Moves.fftIo_unit_in_len (ρ := ρ) ci = ci ∧ Moves.fftIo_unit_out_len (ρ := ρ) co = co ∧
+      Moves.fftIo_ret_in (ρ := ρ) ci = ci ∧ Moves.fftIo_ret_out (ρ := ρ) co = co) ∧
+    (Moves.fftIn_copy_at (ρ := ρ) saved = saved ∧ Moves.fftIn_copy_len (ρ := ρ) ci = ci ∧
+      Moves.fftIn_frames_in_used (ρ := ρ) nReady fi = nReady * fi ∧
+      Moves.fftIn_carry_cond (ρ := ρ) nextSaved used = decide (nextSaved > used) ∧
+      Moves.fftIn_carry_from (ρ := ρ) used = used ∧ Moves.fftIn_carry_to (ρ := ρ) nextSaved = nextSaved ∧
+      Moves.fftIn_extra (ρ := ρ) nextSaved used = nextSaved - used ∧ Moves.fftIn_saved_final (ρ := ρ) extra = extra ∧
+      Moves.fftIn_ret_in (ρ := ρ) ci = ci ∧ Moves.fftIn_ret_out (ρ := ρ) neededLen = neededLen) ∧
+    (Moves.fftOut_in_len (ρ := ρ) needed = needed ∧ Moves.fftOut_store_at (ρ := ρ) saved = saved ∧
+      Moves.fftOut_processed (ρ := ρ) saved fo needed fi = saved + fo * (needed / fi) ∧
+      Moves.fftOut_deliver_cond (ρ := ρ) processed co = decide (processed ≥ co) ∧
+      Moves.fftOut_saved_delivered (ρ := ρ) processed co = processed - co ∧
+      Moves.fftOut_saved_kept (ρ := ρ) processed = processed ∧
+      Moves.fftOut_out_len (ρ := ρ) co = co ∧ Moves.fftOut_carry_from (ρ := ρ) co = co ∧
+      Moves.fftOut_carry_to (ρ := ρ) co saved' = co + saved' ∧
+      Moves.fftOut_used (ρ := ρ) needed = needed ∧ Moves.fftOut_ret_out (ρ := ρ) co = co) :=
+  ⟨⟨rfl, rfl, rfl, rfl⟩, ⟨rfl, rfl, rfl, rfl, rfl, rfl, rfl, rfl, rfl, rfl⟩,
+   ⟨rfl, rfl, rfl, rfl, rfl, rfl, rfl, rfl, rfl, rfl, rfl⟩⟩
+
+/-- the data-movement formulas read the fields / locals one expects -/
+theorem fft_move_formulas_read_the_expected_fields :
+    Moves.moveParams.length = 35 ∧
+    Moves.moveParams.lookup "fftOut_processed" = some ["saved_frames", "fft_size_out", "frames_needed", "fft_size_in"] ∧
+    Moves.moveParams.lookup "fftOut_ret_in" = some ["input_frames_used"] ∧
+    Moves.moveParams.lookup "fftOut_used" = some ["frames_needed"] ∧
+    Moves.moveParams.lookup "fftIn_copy_at" = some ["saved_frames"] ∧
+    Moves.moveParams.lookup "fftIn_ret_out" = some ["needed_len"] := by decide
 
 end Rubato.C05
